@@ -13,6 +13,7 @@ CONSTANTS
   ClosureSel = {FALSE, TRUE}
   FeatOptSel = {"all", "ss01"}
   K = 3
+  K3 = {"none"}
 INIT Init
 NEXT Next
 INVARIANT Monotone
